@@ -208,6 +208,28 @@ SpeciesSet == reactants \cup products \cup required
 Sources    == reactants \ products
 Sinks      == products \ reactants
 
+(* queries.  Network.where_species(s, mode): positions of the reactions that involve species class c as a reactant / as a
+   product / at all, ascending; Network.where_reaction(reaction, mode): positions of the reactions equivalent to `reaction`
+   under the mode (None = __eq__, otherwise the formatted strings are compared).  `naunet extend --remove-species` removes
+   exactly WhereSpecies(c, "all") for every named species. *)
+Involved(mode, i) == CASE mode = "reactant" -> Rs(i) [] mode = "product" -> Ps(i) [] mode = "all" -> Spc(i)
+WhereSpeciesIn(list, c, mode) == {k \in DOMAIN list : c \in Involved(mode, list[k])}
+WhereSpecies(c, mode) == WhereSpeciesIn(rlist, c, mode)
+WhereReactionIn(list, i, mode) == {k \in DOMAIN list : Equiv(mode, list[k], i)}
+WhereReaction(i, mode) == WhereReactionIn(rlist, i, mode)
+(* what the queries and the caches say about one state agree, whatever the history *)
+QueriesAgreeWithCaches ==
+  /\ reactants = {c \in UNION {Spc(rlist[k]) : k \in DOMAIN rlist} \cup reactants : WhereSpecies(c, "reactant") # {}}
+  /\ products  = {c \in UNION {Spc(rlist[k]) : k \in DOMAIN rlist} \cup products : WhereSpecies(c, "product") # {}}
+  /\ \A c \in reactants \cup products : WhereSpecies(c, "all") = WhereSpecies(c, "reactant") \cup WhereSpecies(c, "product")
+  /\ \A k \in DOMAIN rlist : k \in WhereReaction(rlist[k], "default")
+(* removing what where_species reports leaves no reaction that mentions the species, and loses no other reaction *)
+RemoveWhereIsExact ==
+  \A c \in reactants \cup products :
+     LET rest == SelectSeqByPos(rlist, DOMAIN rlist \ WhereSpecies(c, "all"))
+     IN /\ \A k \in DOMAIN rest : c \notin Spc(rest[k])
+        /\ \A k \in DOMAIN rlist : c \notin Spc(rlist[k]) => \E j \in DOMAIN rest : rest[j] = rlist[k]
+
 (* C14 *)
 CacheConsistent  == reactants = UnionOver(Rs, rlist) /\ products = UnionOver(Ps, rlist)
 AllowedRespected == \A k \in DOMAIN rlist : Fits(allowed, rlist[k])
